@@ -413,6 +413,9 @@ int main(int argc, char **argv) {
 				} catch (util::EndOfFileException &e) {
 					child_eof = true;
 				}
+#ifdef PREPROCESS_VERIF
+				PREPROCESS_VERIF_TRACE('C', child_eof ? "peek-eof" : "peek-byte", sentence_num - 1);
+#endif
 				
 				// peek() came back. We have a line-number now, right? If not
 				// sub-process is producing output without any input to base it
